@@ -14,7 +14,7 @@ open NauyacaVerif.Gen.Fn Cl Misc
 abbrev World := Pins × List Act
 
 /-- the world in which the peer presented `p`, the request is `payload` and the server answers `response` -/
-def envOf (k : Key) (p : Presented) (payload : List Nat) (response : Nat) : TofuEnv World Fp Nat where
+def tofuEnvOf (k : Key) (p : Presented) (payload : List Nat) (response : Nat) : TofuEnv World Fp Nat where
   peerCert w := (w, match p with | .cert f => some f | .unreadable => none)
   verify w h pt c := ((w.1, w.2 ++ [.verify (h, pt) (verdict w.1 (h, pt) c).1]), .ok (verdict w.1 (h, pt) c))
   hostInfo w h pt := (w, .ok (w.1.get (h, pt)))
@@ -26,7 +26,7 @@ def envOf (k : Key) (p : Presented) (payload : List Nat) (response : Nat) : Tofu
 
 /-- the same world with a pin store that fails on the lookup -/
 def envFault (k : Key) (p : Presented) (payload : List Nat) (response : Nat) : TofuEnv World Fp Nat :=
-  { envOf k p payload response with verify := fun w _ _ _ => (w, .error .store) }
+  { tofuEnvOf k p payload response with verify := fun w _ _ _ => (w, .error .store) }
 
 def outOf : Outcome → Except CErr Nat
   | .accepted x => .ok x
@@ -36,58 +36,58 @@ def outOf : Outcome → Except CErr Nat
 /-- TOFU on: the translated code leaves exactly the model's store, performs exactly the model's actions in the model's
     order, and returns / raises what the model says — for every store, key, presented certificate, request and response -/
 theorem getSingleTail_eq (s : Pins) (k : Key) (p : Presented) (pl : List Nat) (r : Nat) :
-    getSingleTail (envOf k p pl r) true k.1 k.2 (s, [.connect k]) =
+    getSingleTail (tofuEnvOf k p pl r) true k.1 k.2 (s, [.connect k]) =
       (((connect s k p pl r).1, (connect s k p pl r).2.2), outOf (connect s k p pl r).2.1) := by
   obtain ⟨h, pt⟩ := k
   unfold getSingleTail connect
   cases p with
-  | unreadable => simp [envOf, outOf]
+  | unreadable => simp [tofuEnvOf, outOf]
   | cert fp =>
     cases hg : s.get (h, pt) with
-    | none => simp [envOf, verdict, hg, outOf, sends]
+    | none => simp [tofuEnvOf, verdict, hg, outOf, sends]
     | some old =>
       by_cases he : old = fp
-      · simp [envOf, verdict, hg, he, outOf, sends]
-      · simp [envOf, verdict, hg, he, outOf, sends]
+      · simp [tofuEnvOf, verdict, hg, he, outOf, sends]
+      · simp [tofuEnvOf, verdict, hg, he, outOf, sends]
 
 /-- TOFU off: the request went out in `connection_made`; the tail only awaits and closes, the store is untouched -/
 theorem getSingleTail_off (s : Pins) (k : Key) (p : Presented) (pl : List Nat) (r : Nat) :
-    getSingleTail (envOf k p pl r) false k.1 k.2 (s, [.connect k] ++ sends k pl) =
+    getSingleTail (tofuEnvOf k p pl r) false k.1 k.2 (s, [.connect k] ++ sends k pl) =
       (((connectOff s k p pl r).1, (connectOff s k p pl r).2.2), outOf (connectOff s k p pl r).2.1) := by
-  simp [getSingleTail, connectOff, envOf, outOf]
+  simp [getSingleTail, connectOff, tofuEnvOf, outOf]
 
 /-- a failing pin store: nothing is sent, the transport is closed, the store is unchanged -/
 theorem getSingleTail_fault (s : Pins) (k : Key) (fp : Fp) (pl : List Nat) (r : Nat) :
     getSingleTail (envFault k (.cert fp) pl r) true k.1 k.2 (s, [.connect k]) =
       (((connectStoreFault s k).1, (connectStoreFault s k).2.2), .error .store) := by
-  simp [getSingleTail, connectStoreFault, envFault, envOf]
+  simp [getSingleTail, connectStoreFault, envFault, tofuEnvOf]
 
 /-- `GeminiClient.upload` (Titan), TOFU on: the translated code leaves exactly the model's store, performs exactly the model's actions in the model's
     order, and returns / raises what the model says — for every store, key, presented certificate, request and response -/
 theorem uploadTail_eq (s : Pins) (k : Key) (p : Presented) (pl : List Nat) (r : Nat) :
-    uploadTail (envOf k p pl r) true k.1 k.2 (s, [.connect k]) =
+    uploadTail (tofuEnvOf k p pl r) true k.1 k.2 (s, [.connect k]) =
       (((connect s k p pl r).1, (connect s k p pl r).2.2), outOf (connect s k p pl r).2.1) := by
   obtain ⟨h, pt⟩ := k
   unfold uploadTail connect
   cases p with
-  | unreadable => simp [envOf, outOf]
+  | unreadable => simp [tofuEnvOf, outOf]
   | cert fp =>
     cases hg : s.get (h, pt) with
-    | none => simp [envOf, verdict, hg, outOf, sends]
+    | none => simp [tofuEnvOf, verdict, hg, outOf, sends]
     | some old =>
       by_cases he : old = fp
-      · simp [envOf, verdict, hg, he, outOf, sends]
-      · simp [envOf, verdict, hg, he, outOf, sends]
+      · simp [tofuEnvOf, verdict, hg, he, outOf, sends]
+      · simp [tofuEnvOf, verdict, hg, he, outOf, sends]
 
 /-- TOFU off: the request went out in `connection_made`; the tail only awaits and closes, the store is untouched -/
 theorem uploadTail_off (s : Pins) (k : Key) (p : Presented) (pl : List Nat) (r : Nat) :
-    uploadTail (envOf k p pl r) false k.1 k.2 (s, [.connect k] ++ sends k pl) =
+    uploadTail (tofuEnvOf k p pl r) false k.1 k.2 (s, [.connect k] ++ sends k pl) =
       (((connectOff s k p pl r).1, (connectOff s k p pl r).2.2), outOf (connectOff s k p pl r).2.1) := by
-  simp [uploadTail, connectOff, envOf, outOf]
+  simp [uploadTail, connectOff, tofuEnvOf, outOf]
 
 /-- a failing pin store: nothing is sent, the transport is closed, the store is unchanged -/
 theorem uploadTail_fault (s : Pins) (k : Key) (fp : Fp) (pl : List Nat) (r : Nat) :
     uploadTail (envFault k (.cert fp) pl r) true k.1 k.2 (s, [.connect k]) =
       (((connectStoreFault s k).1, (connectStoreFault s k).2.2), .error .store) := by
-  simp [uploadTail, connectStoreFault, envFault, envOf]
+  simp [uploadTail, connectStoreFault, envFault, tofuEnvOf]
 end NauyacaVerif.Translated
